@@ -6,7 +6,7 @@ from ..rules import config, shape2
 def run(tier, runner):
     pts = matrix.vec_points(tier) + matrix.flatset_points('quick') + matrix.smallset_points('quick') + matrix.swap2_points('quick')
     progs = matrix.programs(runner, pts)
-    r_sp = config.self_ptr(progs)
+    r_sp = config.self_ptr(progs + matrix.real_programs(runner, tier))
     r_span = shape2.inline_span([p for p in progs if 'flavour' in p.meta])
     w = witness.Witnesses('c14', ['<amc/vector.hpp>', '<amc/smallvector.hpp>', '<amc/fixedcapacityvector.hpp>', '<amc/flatset.hpp>', 'oracle.hpp',
                                   '<cstdint>', '<set>', '<vector>', '<functional>'])
